@@ -38,6 +38,9 @@ type AVal struct {
 	Tup []AVal
 	Keys map[string]AVal
 	Obj  *ssa.Alloc
+	// Alts: for the result tuple of an analysed callee with several executable returns, the tuple of each return
+	// (the components of Tup are their joins). Lets a test on one component (err != nil) narrow another (skip).
+	Alts [][]AVal
 }
 
 // containerOf builds a container value: every element is def except those at the given constant keys.
@@ -169,9 +172,43 @@ func aEq(a, b AVal) bool {
 				return false
 			}
 		}
-		return true
+		return altsKey(a.Alts) == altsKey(b.Alts)
 	}
 	return true
+}
+
+func altsKey(alts [][]AVal) string {
+	var ks []string
+	for _, a := range alts {
+		ks = append(ks, AVal{K: ATuple, Tup: a}.String())
+	}
+	sort.Strings(ks)
+	return strings.Join(ks, "|")
+}
+
+// mergeAlts: union of the alternatives of two tuples (a tuple without alternatives counts as its own single one).
+func mergeAlts(a, b AVal) [][]AVal {
+	var out [][]AVal
+	seen := map[string]bool{}
+	add := func(t AVal) {
+		alts := t.Alts
+		if len(alts) == 0 {
+			alts = [][]AVal{t.Tup}
+		}
+		for _, x := range alts {
+			k := AVal{K: ATuple, Tup: x}.String()
+			if !seen[k] {
+				seen[k] = true
+				out = append(out, x)
+			}
+		}
+	}
+	add(a)
+	add(b)
+	if len(out) > 8 {
+		return nil
+	}
+	return out
 }
 
 func join(a, b AVal) AVal {
@@ -189,6 +226,7 @@ func join(a, b AVal) AVal {
 		for i := range a.Tup {
 			t.Tup[i] = join(a.Tup[i], b.Tup[i])
 		}
+		t.Alts = mergeAlts(a, b)
 		return t
 	}
 	// non-nil-ness survives the join of non-nil things
@@ -784,6 +822,11 @@ func (s *SCCP) run(fn *ssa.Function, args []AVal, depth int) *fnState {
 					}
 				case *ssa.If:
 					c := get(x.Cond)
+					if _, known := c.boolVal(); !known && c.K != ABot {
+						if rc, ok := s.refinedCond(x.Cond, b, get); ok {
+							c = rc
+						}
+					}
 					t, f := true, true
 					if bv, ok := c.boolVal(); ok {
 						t, f = bv, !bv
@@ -860,9 +903,12 @@ func (s *SCCP) run(fn *ssa.Function, args []AVal, depth int) *fnState {
 			break
 		}
 	}
-	// function result
+	// function result: the componentwise join of the returns, and - for tuples - the returns one by one (Alts), there
+	// with an error that is returned behind the non-nil edge of its own nil test known to be non-nil
 	res := bot
-	for _, rv := range st.rets {
+	var alts [][]AVal
+	altSeen := map[string]bool{}
+	for rt, rv := range st.rets {
 		var a AVal
 		if len(rv) == 1 {
 			a = rv[0]
@@ -878,7 +924,28 @@ func (s *SCCP) run(fn *ssa.Function, args []AVal, depth int) *fnState {
 		if allBot {
 			continue
 		}
-		res = join(res, a)
+		res = join(res, AVal{K: a.K, C: a.C, Sym: a.Sym, G: a.G, Tup: a.Tup, Keys: a.Keys, Obj: a.Obj})
+		if len(rv) > 1 {
+			alt := append([]AVal{}, rv...)
+			for i := range alt {
+				if alt[i].K == ATop && isErrorType(rt.Results[i].Type()) && s.retNonNil(rt, i) {
+					alt[i] = nonNil
+				}
+			}
+			if k := (AVal{K: ATuple, Tup: alt}).String(); !altSeen[k] {
+				altSeen[k] = true
+				alts = append(alts, alt)
+			}
+		}
+	}
+	if res.K == ATuple {
+		res.Alts = nil
+		if len(alts) >= 2 && len(alts) <= 8 {
+			sort.Slice(alts, func(i, j int) bool {
+				return AVal{K: ATuple, Tup: alts[i]}.String() < AVal{K: ATuple, Tup: alts[j]}.String()
+			})
+			res.Alts = alts
+		}
 	}
 	st.result = res
 	s.memo[key] = st
@@ -1358,6 +1425,39 @@ func errorReturns(st *fnState) []string {
 		if rv[idx].K == ABot {
 			continue
 		}
+		// a return of a variable merged in the returning block (`return failed` after `failed = err; break`): one
+		// outcome per executable incoming edge instead of their join
+		if ph, ok := resolveSpill(r.Results[idx]).(*ssa.Phi); ok && ph.Block() == r.Block() && rv[idx].K == ATop {
+			split := true
+			var parts []string
+			for i, e := range ph.Edges {
+				if !st.execE[[2]int{ph.Block().Preds[i].Index, ph.Block().Index}] {
+					continue
+				}
+				var a AVal
+				if k, isK := e.(*ssa.Const); isK {
+					if k.Value != nil {
+						split = false
+						break
+					}
+					a = nilVal
+				} else if v, had := st.val[e]; had {
+					a = v
+				} else {
+					split = false
+					break
+				}
+				if a.K != ABot {
+					parts = append(parts, a.String())
+				}
+			}
+			if split && len(parts) > 0 {
+				for _, p := range parts {
+					set[p] = true
+				}
+				continue
+			}
+		}
 		set[rv[idx].String()] = true
 	}
 	var out []string
@@ -1709,4 +1809,148 @@ func (s *SCCP) loadLocal(st *fnState, al *ssa.Alloc, get func(ssa.Value) AVal) A
 		return a
 	}
 	return top
+}
+
+var retNonNilMemo sync.Map // [2]interface{}{*ssa.Return, idx} -> bool
+
+func (s *SCCP) retNonNil(rt *ssa.Return, i int) bool {
+	type key struct {
+		rt *ssa.Return
+		i  int
+	}
+	k := key{rt, i}
+	if v, ok := retNonNilMemo.Load(k); ok {
+		return v.(bool)
+	}
+	v := s.c.errNonNilAt(rt.Results[i], rt.Block(), 0)
+	retNonNilMemo.Store(k, v)
+	return v
+}
+
+// refinedCond evaluates a branch condition on one component of a result tuple with alternatives, keeping only the
+// alternatives that agree with the tests on the other components that dominate the branch
+// (`skip, err := helper(); if err != nil { return err }; if skip { continue }`).
+func (s *SCCP) refinedCond(cond ssa.Value, at *ssa.BasicBlock, get func(ssa.Value) AVal) (AVal, bool) {
+	neg := false
+	for {
+		if u, ok := cond.(*ssa.UnOp); ok && u.Op == token.NOT {
+			cond, neg = u.X, !neg
+			continue
+		}
+		break
+	}
+	var ext *ssa.Extract
+	nilCmp := token.ILLEGAL
+	switch x := cond.(type) {
+	case *ssa.Extract:
+		ext = x
+	case *ssa.BinOp:
+		if x.Op == token.EQL || x.Op == token.NEQ {
+			if e, ok := x.X.(*ssa.Extract); ok && isNilConst(x.Y) {
+				ext, nilCmp = e, x.Op
+			} else if e, ok := x.Y.(*ssa.Extract); ok && isNilConst(x.X) {
+				ext, nilCmp = e, x.Op
+			}
+		}
+	}
+	if ext == nil {
+		return bot, false
+	}
+	tv := get(ext.Tuple)
+	if tv.K != ATuple || len(tv.Alts) < 2 || ext.Tuple.Referrers() == nil {
+		return bot, false
+	}
+	alts := tv.Alts
+	keep := func(pred func(alt []AVal) bool) {
+		var out [][]AVal
+		for _, a := range alts {
+			if pred(a) {
+				out = append(out, a)
+			}
+		}
+		alts = out
+	}
+	defNonNil := func(a AVal) bool {
+		switch a.K {
+		case ANonNil, AFresh, ASentinel, APtr, AContainer:
+			return true
+		}
+		return a.isConst()
+	}
+	f := at.Parent()
+	for _, rf := range *ext.Tuple.Referrers() {
+		sib, ok := rf.(*ssa.Extract)
+		if !ok || sib == ext || sib.Index >= len(tv.Tup) {
+			continue
+		}
+		j := sib.Index
+		for _, tb := range f.Blocks {
+			if tb == at {
+				continue
+			}
+			c2, ts, fs := condEdge(tb)
+			if c2 == nil {
+				continue
+			}
+			n2 := false
+			for {
+				if u, ok := c2.(*ssa.UnOp); ok && u.Op == token.NOT {
+					c2, n2 = u.X, !n2
+					continue
+				}
+				break
+			}
+			if n2 {
+				ts, fs = fs, ts
+			}
+			domBy := func(succ *ssa.BasicBlock) bool { return len(succ.Preds) == 1 && blockOrDom(succ, at) }
+			if c2 == ssa.Value(sib) {
+				if domBy(ts) {
+					keep(func(a []AVal) bool { v, k := a[j].boolVal(); return !k || v })
+				} else if domBy(fs) {
+					keep(func(a []AVal) bool { v, k := a[j].boolVal(); return !k || !v })
+				}
+				continue
+			}
+			if bo, ok := c2.(*ssa.BinOp); ok && (bo.Op == token.EQL || bo.Op == token.NEQ) {
+				if !((bo.X == ssa.Value(sib) && isNilConst(bo.Y)) || (bo.Y == ssa.Value(sib) && isNilConst(bo.X))) {
+					continue
+				}
+				nilS, nonNilS := ts, fs
+				if bo.Op == token.NEQ {
+					nilS, nonNilS = fs, ts
+				}
+				if domBy(nilS) {
+					keep(func(a []AVal) bool { return !defNonNil(a[j]) })
+				} else if domBy(nonNilS) {
+					keep(func(a []AVal) bool { return !a[j].isNil() })
+				}
+			}
+		}
+	}
+	if len(alts) == 0 || len(alts) == len(tv.Alts) {
+		return bot, false
+	}
+	v := bot
+	for _, a := range alts {
+		v = join(v, a[ext.Index])
+	}
+	var res AVal
+	if nilCmp == token.ILLEGAL {
+		bv, ok := v.boolVal()
+		if !ok {
+			return bot, false
+		}
+		res = cBool(bv != neg)
+	} else {
+		switch {
+		case v.isNil():
+			res = cBool((nilCmp == token.EQL) != neg)
+		case defNonNil(v):
+			res = cBool((nilCmp == token.NEQ) != neg)
+		default:
+			return bot, false
+		}
+	}
+	return res, true
 }
